@@ -1,5 +1,6 @@
 import KitModel.Spiffe
-/-! Helper lemmas for property C19: the renewal automaton (`RN`, `fetch`, `wake`, `settle`). -/
+/-! Helper lemmas for property C19: the renewal automaton with in-flight fetches
+(`RN`, `issue`, `complete`, `answerCore`, `wake`, `settle`). -/
 namespace Kit.Spiffe
 
 theorem minute_pos : 0 < minute := by decide
@@ -8,52 +9,30 @@ theorem tenSec_pos : 0 < tenSec := by decide
 /-- File set written for a successful request. -/
 def fileSetOf (r : Req) : FileSet := ⟨r.tok, r.tok, r.anchors⟩
 
-/-- Renewal time of the certificate a fetch returned (0 for a failed fetch). -/
-def halfOf : Option Cert → Int
-  | some c => renewalTime c.nb c.na
-  | none => 0
+/-- Number of answered requests as a function of the key counter. -/
+def logN (s : RN) : Nat := if s.mode = .inflight then s.reqTok else s.nextTok
 
-/-- What one `fetchIdentityCertificate` call does. -/
-structure FetchSpec (s s1 : RN) (r : Option Cert) : Prop where
-  now : s1.now = s.now
-  mode : s1.mode = s.mode
-  svid : s1.svid = s.svid
-  renewAt : s1.renewAt = s.renewAt
-  wakeAt : s1.wakeAt = s.wakeAt
-  armedAt : s1.armedAt = s.armedAt
-  dirOn : s1.dirOn = s.dirOn
-  anchors : s1.anchors = s.anchors
-  timers : s1.timers = s.timers
-  nextTok : s1.nextTok = s.nextTok + 1
-  script : s1.script = s.script.tail
-  log : s1.log = ⟨s.now, s.nextTok, r.isSome, s.anchors, halfOf r⟩ :: s.log
-  tok : ∀ c, r = some c → c.tok = s.nextTok
-  pub : s1.pub = if s.dirOn && r.isSome then ⟨s.nextTok, s.nextTok, s.anchors⟩ :: s.pub else s.pub
-  emptyFail : s.script = [] → r = none
+theorem logN_of_not_inflight {s : RN} (h : s.mode ≠ .inflight) : logN s = s.nextTok := by
+  simp [logN, h]
 
-theorem fetch_spec (s : RN) : FetchSpec s (fetch s).1 (fetch s).2 := by
-  unfold fetch
-  cases hs : s.script with
-  | nil => constructor <;> simp [hs, halfOf]
-  | cons r rest =>
-    cases r with
-    | fail => constructor <;> simp [hs, halfOf]
-    | ok nb na => constructor <;> simp [hs, halfOf]
-    | okAnchorsFail nb na =>
-      cases hd : s.dirOn <;> constructor <;> simp [hd, hs, halfOf]
-
-/-- Data invariant: what is served, which keys were used, what was published. -/
-structure DInv (s : RN) : Prop where
+/-- Data invariant with `n` answered requests: what is served, which keys were used, what was published. -/
+structure DInvN (n : Nat) (s : RN) : Prop where
   served : s.svid.map (·.tok) = lastGood s.log
-  toks : s.log.map (·.tok) = (List.range s.nextTok).reverse
+  toks : s.log.map (·.tok) = (List.range n).reverse
   pubs : s.pub = if s.dirOn then (s.log.filter (·.good)).map fileSetOf else []
 
-/-- Loop invariant of the rotation loop (holds between any two wakes). -/
+theorem dinv_congr {n : Nat} {s s' : RN} (h1 : s'.svid = s.svid) (h2 : s'.log = s.log)
+    (h4 : s'.pub = s.pub) (h5 : s'.dirOn = s.dirOn) (h : DInvN n s) : DInvN n s' :=
+  ⟨by rw [h1, h2]; exact h.served, by rw [h2]; exact h.toks, by rw [h4, h5, h2]; exact h.pubs⟩
+
+/-- Invariant of the rotation loop (holds between any two wakes / answers). -/
 structure LInv (s : RN) : Prop where
   waiting : s.mode = .waiting → s.wakeAt ≤ s.renewAt ∧ s.wakeAt ≤ s.armedAt + minute ∧ s.armedAt ≤ s.now
   retrying : s.mode = .retrying → s.wakeAt = s.armedAt + tenSec ∧ s.armedAt ≤ s.now ∧ s.renewAt ≤ s.armedAt ∧
-    ∃ r rest, s.log = r :: rest ∧ r.good = false ∧ r.stamp = s.armedAt
-  data : DInv s
+    ∃ r rest, s.log = r :: rest ∧ r.good = false ∧ r.answered = s.armedAt
+  flight : s.mode = .inflight → s.reqTok + 1 = s.nextTok ∧ s.reqAt ≤ s.now ∧
+    (s.reqInit = true → s.log = [] ∧ s.svid = none) ∧ (s.reqInit = false → s.renewAt ≤ s.reqAt)
+  data : DInvN (logN s) s
 
 theorem arm_fields (s : RN) :
     (arm s).mode = .waiting ∧ (arm s).wakeAt = s.now + min minute (s.renewAt - s.now) ∧
@@ -62,145 +41,209 @@ theorem arm_fields (s : RN) :
     (arm s).dirOn = s.dirOn ∧ (arm s).script = s.script ∧ (arm s).anchors = s.anchors := by
   simp [arm]
 
-theorem linv_arm {s : RN} (h : DInv s) : LInv (arm s) := by
+theorem linv_arm {s : RN} (h : DInvN s.nextTok s) : LInv (arm s) := by
   obtain ⟨hm, hw, ha, hn, hr, hs, hl, ht, hp, hd, _, _⟩ := arm_fields s
   have := minute_pos
-  refine ⟨?_, ?_, ?_, ?_, ?_⟩
+  refine ⟨?_, ?_, ?_, ?_⟩
   · intro _; rw [hw, ha, hn, hr]; omega
   · intro h'; rw [hm] at h'; cases h'
-  · rw [hs, hl]; exact h.served
-  · rw [hl, ht]; exact h.toks
-  · rw [hp, hd, hl]; exact h.pubs
+  · intro h'; rw [hm] at h'; cases h'
+  · have : logN (arm s) = s.nextTok := by simp [logN, hm, ht]
+    rw [this]
+    exact dinv_congr hs hl hp hd h
+
+theorem issue_fields (s : RN) (b : Bool) :
+    (issue s b).mode = .inflight ∧ (issue s b).reqTok = s.nextTok ∧ (issue s b).reqAt = s.now ∧
+    (issue s b).reqInit = b ∧ (issue s b).nextTok = s.nextTok + 1 ∧ (issue s b).now = s.now ∧
+    (issue s b).svid = s.svid ∧ (issue s b).log = s.log ∧ (issue s b).pub = s.pub ∧
+    (issue s b).dirOn = s.dirOn ∧ (issue s b).renewAt = s.renewAt ∧ (issue s b).script = s.script ∧
+    (issue s b).timers = s.timers ∧ (issue s b).anchors = s.anchors := by
+  simp [issue]
+
+theorem linv_issue {s : RN} (h : LInv s) (hm : s.mode = .waiting) (hle : s.renewAt ≤ s.now) :
+    LInv (issue s false) := by
+  obtain ⟨h1, h2, h3, h4, h5, h6, h7, h8, h9, h10, h11, _⟩ := issue_fields s false
+  refine ⟨?_, ?_, ?_, ?_⟩
+  · intro h'; rw [h1] at h'; cases h'
+  · intro h'; rw [h1] at h'; cases h'
+  · intro _
+    refine ⟨by rw [h2, h5], by rw [h3, h6]; exact Int.le_refl _, ⟨?_, ?_⟩⟩
+    · intro hh; rw [h4] at hh; cases hh
+    · intro _; rw [h11, h3]; exact hle
+  · have e1 : logN (issue s false) = s.nextTok := by simp [logN, h1, h2]
+    have e2 : logN s = s.nextTok := by simp [logN, hm]
+    rw [e1, ← e2]
+    exact dinv_congr h7 h8 h9 h10 h.data
+
+/-- What `complete` does. -/
+structure CompleteSpec (s s1 : RN) (r : Option Cert) : Prop where
+  now : s1.now = s.now
+  mode : s1.mode = s.mode
+  svid : s1.svid = s.svid
+  renewAt : s1.renewAt = s.renewAt
+  dirOn : s1.dirOn = s.dirOn
+  nextTok : s1.nextTok = s.nextTok
+  timers : s1.timers = s.timers
+  anchors : s1.anchors = s.anchors
+  log : s1.log = ⟨s.reqAt, s.reqTok, r.isSome, s.anchors, halfOf r, s.now⟩ :: s.log
+  tok : ∀ c, r = some c → c.tok = s.reqTok
+  pub : s1.pub = if s.dirOn && r.isSome then ⟨s.reqTok, s.reqTok, s.anchors⟩ :: s.pub else s.pub
+
+theorem outcome_tok (s : RN) : ∀ c, (outcome s).1 = some c → c.tok = s.reqTok := by
+  intro c h
+  unfold outcome at h
+  cases hs : s.script with
+  | nil => rw [hs] at h; simp at h
+  | cons r rest =>
+    rw [hs] at h
+    cases r with
+    | fail => simp at h
+    | ok nb na => simp at h; rw [← h]
+    | okAnchorsFail nb na =>
+      cases hd : s.dirOn <;> simp [hd] at h
+      rw [← h]
+
+theorem complete_spec (s : RN) : CompleteSpec s (complete s).1 (complete s).2 := by
+  constructor <;> first | rfl | exact outcome_tok s
+
+theorem range_succ_reverse (n : Nat) : (List.range (n + 1)).reverse = n :: (List.range n).reverse := by
+  simp [List.range_succ]
+
+/-- After the answer, with `currentSVID` swapped if the fetch succeeded. -/
+theorem dinv_complete {s : RN} (h : DInvN s.reqTok s) (x : Int) :
+    DInvN (s.reqTok + 1) (match (complete s).2 with
+          | none => (complete s).1
+          | some c => { (complete s).1 with svid := some c, renewAt := x }) := by
+  have cs := complete_spec s
+  cases hr : (complete s).2 with
+  | none =>
+    rw [hr] at cs
+    refine ⟨?_, ?_, ?_⟩
+    · rw [cs.svid, cs.log]; simpa [lastGood] using h.served
+    · rw [cs.log, range_succ_reverse]; simp [h.toks]
+    · rw [cs.pub, cs.dirOn, cs.log]
+      have hp := h.pubs
+      cases hd : s.dirOn <;> simp [hd] at hp ⊢ <;> exact hp
+  | some c =>
+    rw [hr] at cs
+    refine ⟨?_, ?_, ?_⟩
+    · show some c.tok = lastGood (complete s).1.log
+      rw [cs.log]; simp [lastGood, cs.tok c rfl]
+    · show (complete s).1.log.map (·.tok) = (List.range (s.reqTok + 1)).reverse
+      rw [cs.log, range_succ_reverse]; simp [h.toks]
+    · show (complete s).1.pub = if (complete s).1.dirOn then ((complete s).1.log.filter (·.good)).map fileSetOf else []
+      rw [cs.pub, cs.dirOn, cs.log]
+      have hp := h.pubs
+      cases hd : s.dirOn <;> simp [hd, fileSetOf] at hp ⊢ <;> exact hp
+
+theorem answerCore_cases (s : RN) :
+    ((complete s).2 = none ∧ s.reqInit = true ∧ answerCore s = { (complete s).1 with mode := .dead }) ∨
+    ((complete s).2 = none ∧ s.reqInit = false ∧
+      answerCore s = { (complete s).1 with mode := .retrying, wakeAt := s.now + tenSec, armedAt := s.now,
+                                           timers := (s.now, tenSec) :: (complete s).1.timers }) ∨
+    (∃ c, (complete s).2 = some c ∧
+      answerCore s = arm { (complete s).1 with svid := some c, renewAt := renewalTime c.nb c.na }) := by
+  unfold answerCore
+  rcases hc : complete s with ⟨s1, r⟩
+  cases r with
+  | none => cases hi : s.reqInit <;> simp
+  | some c => simp
+
+theorem linv_mk_dead {t : RN} (hm : t.mode = .dead) (hd : DInvN t.nextTok t) : LInv t := by
+  refine ⟨(by intro h; rw [hm] at h; cases h), (by intro h; rw [hm] at h; cases h), (by intro h; rw [hm] at h; cases h), ?_⟩
+  rw [logN_of_not_inflight (by rw [hm]; simp)]; exact hd
+
+theorem linv_mk_retry {t : RN} (hm : t.mode = .retrying) (h1 : t.wakeAt = t.armedAt + tenSec)
+    (h2 : t.armedAt ≤ t.now) (h3 : t.renewAt ≤ t.armedAt)
+    (h4 : ∃ r rest, t.log = r :: rest ∧ r.good = false ∧ r.answered = t.armedAt)
+    (hd : DInvN t.nextTok t) : LInv t := by
+  refine ⟨(by intro h; rw [hm] at h; cases h), fun _ => ⟨h1, h2, h3, h4⟩, (by intro h; rw [hm] at h; cases h), ?_⟩
+  rw [logN_of_not_inflight (by rw [hm]; simp)]; exact hd
+
+theorem linv_answerCore {s : RN} (h : LInv s) (hm : s.mode = .inflight) : LInv (answerCore s) := by
+  have cs := complete_spec s
+  obtain ⟨hf1, hf2, hf3, hf4⟩ := h.flight hm
+  have hd0 : DInvN s.reqTok s := by have := h.data; simpa [logN, hm] using this
+  rcases answerCore_cases s with ⟨hn, hi, hw⟩ | ⟨hn, hi, hw⟩ | ⟨c, hc, hw⟩
+  · rw [hw]
+    have hd := dinv_complete hd0 0
+    rw [hn] at hd cs
+    apply linv_mk_dead rfl
+    show DInvN (complete s).1.nextTok _
+    rw [cs.nextTok, ← hf1]
+    exact dinv_congr (s := (complete s).1) rfl rfl rfl rfl hd
+  · rw [hw]
+    have hd := dinv_complete hd0 0
+    rw [hn] at hd cs
+    apply linv_mk_retry rfl rfl
+    · show s.now ≤ (complete s).1.now
+      rw [cs.now]; exact Int.le_refl _
+    · show (complete s).1.renewAt ≤ s.now
+      rw [cs.renewAt]; have := hf4 hi; omega
+    · exact ⟨_, _, cs.log, rfl, rfl⟩
+    · show DInvN (complete s).1.nextTok _
+      rw [cs.nextTok, ← hf1]
+      exact dinv_congr (s := (complete s).1) rfl rfl rfl rfl hd
+  · rw [hw]
+    apply linv_arm
+    have hd := dinv_complete hd0 (renewalTime c.nb c.na)
+    rw [hc] at hd
+    show DInvN (complete s).1.nextTok _
+    rw [cs.nextTok, ← hf1]
+    exact hd
 
 theorem wake_cases (s : RN) :
-    (s.mode = .dead ∧ wake s = s) ∨
+    ((s.mode = .dead ∨ s.mode = .inflight) ∧ wake s = s) ∨
     (s.mode = .retrying ∧ wake s = arm s) ∨
     (s.mode = .waiting ∧ s.now < s.renewAt ∧ wake s = arm s) ∨
-    (s.mode = .waiting ∧ s.renewAt ≤ s.now ∧ (fetch s).2 = none ∧
-      wake s = { (fetch s).1 with mode := .retrying, wakeAt := s.now + tenSec, armedAt := s.now,
-                                  timers := (s.now, tenSec) :: (fetch s).1.timers }) ∨
-    (s.mode = .waiting ∧ s.renewAt ≤ s.now ∧ ∃ c, (fetch s).2 = some c ∧
-      wake s = arm { (fetch s).1 with svid := some c, renewAt := renewalTime c.nb c.na }) := by
+    (s.mode = .waiting ∧ s.renewAt ≤ s.now ∧ wake s = issue s false) := by
   unfold wake
   cases hm : s.mode with
   | dead => simp
+  | inflight => simp
   | retrying => simp
   | waiting =>
     by_cases hlt : s.now < s.renewAt
     · simp [hlt]
     · have hle : s.renewAt ≤ s.now := by omega
-      simp only [hlt, if_false]
-      rcases hf : fetch s with ⟨s1, r⟩
-      cases r with
-      | none => simp [hle]
-      | some c => simp [hle]
-
-theorem range_succ_reverse (n : Nat) : (List.range (n + 1)).reverse = n :: (List.range n).reverse := by
-  simp [List.range_succ]
-
-theorem dinv_congr {s s' : RN} (h1 : s'.svid = s.svid) (h2 : s'.log = s.log) (h3 : s'.nextTok = s.nextTok)
-    (h4 : s'.pub = s.pub) (h5 : s'.dirOn = s.dirOn) (h : DInv s) : DInv s' :=
-  ⟨by rw [h1, h2]; exact h.served, by rw [h2, h3]; exact h.toks, by rw [h4, h5, h2]; exact h.pubs⟩
-
-/-- After a fetch, with `currentSVID` swapped if it succeeded. -/
-theorem dinv_fetch {s : RN} (h : DInv s) (x : Int) :
-    DInv (match (fetch s).2 with
-          | none => (fetch s).1
-          | some c => { (fetch s).1 with svid := some c, renewAt := x }) := by
-  have fs := fetch_spec s
-  cases hr : (fetch s).2 with
-  | none =>
-    rw [hr] at fs
-    refine ⟨?_, ?_, ?_⟩
-    · rw [fs.svid, fs.log]; simpa [lastGood] using h.served
-    · rw [fs.log, fs.nextTok, range_succ_reverse]; simp [h.toks]
-    · rw [fs.pub, fs.dirOn, fs.log]
-      have hp := h.pubs
-      cases hd : s.dirOn <;> simp [hd] at hp ⊢ <;> exact hp
-  | some c =>
-    rw [hr] at fs
-    refine ⟨?_, ?_, ?_⟩
-    · show some c.tok = lastGood (fetch s).1.log
-      rw [fs.log]; simp [lastGood, fs.tok c rfl]
-    · show (fetch s).1.log.map (·.tok) = (List.range (fetch s).1.nextTok).reverse
-      rw [fs.log, fs.nextTok, range_succ_reverse]; simp [h.toks]
-    · show (fetch s).1.pub = if (fetch s).1.dirOn then ((fetch s).1.log.filter (·.good)).map fileSetOf else []
-      rw [fs.pub, fs.dirOn, fs.log]
-      have hp := h.pubs
-      cases hd : s.dirOn <;> simp [hd, fileSetOf] at hp ⊢ <;> exact hp
+      simp [hlt, hle]
 
 theorem linv_wake {s : RN} (h : LInv s) : LInv (wake s) := by
-  rcases wake_cases s with ⟨_, hw⟩ | ⟨_, hw⟩ | ⟨_, _, hw⟩ | ⟨hm, hle, hnone, hw⟩ | ⟨hm, hle, c, hsome, hw⟩
+  rcases wake_cases s with ⟨_, hw⟩ | ⟨hm, hw⟩ | ⟨hm, _, hw⟩ | ⟨hm, hle, hw⟩
   · rw [hw]; exact h
-  · rw [hw]; exact linv_arm h.data
-  · rw [hw]; exact linv_arm h.data
-  · rw [hw]
-    have fs := fetch_spec s
-    have hd := dinv_fetch h.data 0
-    rw [hnone] at fs hd
-    refine ⟨?_, ?_, ?_⟩
-    · intro h'; cases h'
-    · intro _
-      refine ⟨rfl, ?_, ?_, _, _, fs.log, rfl, rfl⟩
-      · show s.now ≤ (fetch s).1.now
-        rw [fs.now]; exact Int.le_refl _
-      · show (fetch s).1.renewAt ≤ s.now
-        rw [fs.renewAt]; exact hle
-    · exact dinv_congr (s := (fetch s).1) rfl rfl rfl rfl rfl hd
-  · rw [hw]
-    apply linv_arm
-    have hd := dinv_fetch h.data (renewalTime c.nb c.na)
-    rw [hsome] at hd
-    exact hd
+  · rw [hw]; apply linv_arm; have := h.data; rwa [logN_of_not_inflight (by rw [hm]; simp)] at this
+  · rw [hw]; apply linv_arm; have := h.data; rwa [logN_of_not_inflight (by rw [hm]; simp)] at this
+  · rw [hw]; exact linv_issue h hm hle
 
-/-! ### timers fire as soon as `now ≥ deadline`: `settle` terminates in a state with no due timer -/
+/-! ### timers fire as soon as `now ≥ deadline`: `settle` ends in a state with no due timer -/
 
-def mu (s : RN) : Nat := 2 * s.script.length + (if s.mode = .retrying then 1 else 0)
+def mu (s : RN) : Nat := if s.mode = .retrying then 2 else if s.mode = .waiting then 1 else 0
 
-theorem due_iff (s : RN) : s.due = true ↔ s.mode ≠ .dead ∧ s.wakeAt ≤ s.now := by
+theorem due_iff (s : RN) : s.due = true ↔ (s.mode = .waiting ∨ s.mode = .retrying) ∧ s.wakeAt ≤ s.now := by
   simp [RN.due]
+
+theorem not_due_of_mode {s : RN} (h : s.mode = .inflight ∨ s.mode = .dead) : s.due = false := by
+  cases hd : s.due
+  · rfl
+  · have := ((due_iff s).mp hd).1
+    rcases h with h | h <;> rw [h] at this <;> simp at this
 
 theorem wake_measure {s : RN} (hd : s.due = true) : (wake s).due = false ∨ mu (wake s) < mu s := by
   have hdue := (due_iff s).mp hd
   have hm := minute_pos
-  have ht := tenSec_pos
-  rcases wake_cases s with ⟨hmode, _⟩ | ⟨hmode, hw⟩ | ⟨hmode, hlt, hw⟩ | ⟨hmode, hle, hnone, hw⟩ | ⟨hmode, hle, c, hsome, hw⟩
-  · exact absurd hmode hdue.1
+  rcases wake_cases s with ⟨hmode, _⟩ | ⟨hmode, hw⟩ | ⟨hmode, hlt, hw⟩ | ⟨hmode, hle, hw⟩
+  · rcases hmode with h | h <;> rw [h] at hdue <;> simp at hdue
   · right
-    obtain ⟨h1, _, _, _, _, _, _, _, _, _, h11, _⟩ := arm_fields s
-    rw [hw]; simp [mu, h1, h11, hmode]
+    rw [hw]; simp [mu, (arm_fields s).1, hmode]
   · left
     obtain ⟨h1, h2, _, h4, _⟩ := arm_fields s
     rw [hw]
     cases hdd : (arm s).due
     · rfl
-    · have := (due_iff _).mp hdd
+    · have := ((due_iff _).mp hdd).2
       rw [h2, h4] at this; omega
-  · have fs := fetch_spec s
-    cases hsc : s.script with
-    | nil =>
-      left
-      rw [hw]
-      cases hdd : RN.due _
-      · rfl
-      · have := (due_iff _).mp hdd
-        simp [fs.now] at this; omega
-    | cons r rest =>
-      right
-      rw [hw]
-      simp [mu, fs.script, hsc, hmode]
-      omega
-  · have fs := fetch_spec s
-    cases hsc : s.script with
-    | nil => have := fs.emptyFail hsc; rw [hsome] at this; cases this
-    | cons r rest =>
-      right
-      rw [hw]
-      obtain ⟨h1, _, _, _, _, _, _, _, _, _, h11, _⟩ := arm_fields { (fetch s).1 with svid := some c, renewAt := renewalTime c.nb c.na }
-      have h12 : (arm { (fetch s).1 with svid := some c, renewAt := renewalTime c.nb c.na }).script = rest := by
-        rw [h11]; show (fetch s).1.script = rest; rw [fs.script, hsc]; rfl
-      simp only [mu, h1, h12, hsc, hmode]
-      simp
+  · left
+    rw [hw]; exact not_due_of_mode (Or.inl (issue_fields s false).1)
 
 theorem settle_spec : ∀ (n : Nat) (s : RN), LInv s → mu s < n →
     (settle n s).due = false ∧ LInv (settle n s) := by
@@ -214,72 +257,43 @@ theorem settle_spec : ∀ (n : Nat) (s : RN), LInv s → mu s < n →
     · simp [hd, hi]
     · simp only [if_true]
       rcases wake_measure hd with hnd | hmu
-      · -- the next wake is in the future: settle stops at `wake s`
-        cases n with
+      · cases n with
         | zero => simp [settle, hnd, linv_wake hi]
         | succ m => simp [settle, hnd, linv_wake hi]
       · exact ih (wake s) (linv_wake hi) (by omega)
 
-theorem mu_lt_fuel (s : RN) : mu s < fuelOf s := by
-  simp only [mu, fuelOf]; split <;> omega
+theorem mu_lt_three (s : RN) : mu s < 3 := by
+  simp only [mu]; split <;> (try split) <;> omega
 
 theorem settled_spec {s : RN} (h : LInv s) : (settled s).due = false ∧ LInv (settled s) :=
-  settle_spec _ s h (mu_lt_fuel s)
+  settle_spec _ s h (mu_lt_three s)
 
-/-! ### what a wake adds to the request log -/
+/-! ### wakes touch neither the log nor the served SVID -/
 
-theorem wake_now (s : RN) : (wake s).now = s.now := by
-  have fs := fetch_spec s
-  rcases wake_cases s with ⟨_, hw⟩ | ⟨_, hw⟩ | ⟨_, _, hw⟩ | ⟨_, _, _, hw⟩ | ⟨_, _, c, _, hw⟩ <;> rw [hw]
-  · exact (arm_fields s).2.2.2.1
-  · exact (arm_fields s).2.2.2.1
-  · exact fs.now
-  · rw [(arm_fields _).2.2.2.1]; exact fs.now
+theorem wake_frame (s : RN) :
+    (wake s).now = s.now ∧ (wake s).log = s.log ∧ (wake s).svid = s.svid ∧ (wake s).dirOn = s.dirOn ∧
+    (wake s).pub = s.pub ∧ (wake s).script = s.script ∧ (wake s).anchors = s.anchors := by
+  rcases wake_cases s with ⟨_, hw⟩ | ⟨_, hw⟩ | ⟨_, _, hw⟩ | ⟨_, _, hw⟩ <;> rw [hw]
+  · exact ⟨rfl, rfl, rfl, rfl, rfl, rfl, rfl⟩
+  · simp [arm]
+  · simp [arm]
+  · simp [issue]
 
-/-- A wake at/after the renewal time (or after a retry wait has been re-armed) issues one request,
-stamped with the current clock and carrying the next fresh key. -/
-theorem wake_fetches {s : RN} (hm : s.mode = .waiting) (hle : s.renewAt ≤ s.now) :
-    ∃ r, (wake s).log = r :: s.log ∧ r.stamp = s.now ∧ r.tok = s.nextTok ∧ r.good = (fetch s).2.isSome := by
-  have fs := fetch_spec s
-  rcases wake_cases s with ⟨h, _⟩ | ⟨h, _⟩ | ⟨_, hlt, _⟩ | ⟨_, _, _, hw⟩ | ⟨_, _, c, _, hw⟩
-  · rw [hm] at h; cases h
-  · rw [hm] at h; cases h
-  · omega
-  · rw [hw]; exact ⟨_, fs.log, rfl, rfl, rfl⟩
-  · rw [hw, (arm_fields _).2.2.2.2.2.2.1]; exact ⟨_, fs.log, rfl, rfl, rfl⟩
-
-theorem wake_log (s : RN) :
-    (wake s).log = s.log ∨ ∃ r, (wake s).log = r :: s.log ∧ r.stamp = s.now := by
-  have fs := fetch_spec s
-  rcases wake_cases s with ⟨_, hw⟩ | ⟨_, hw⟩ | ⟨_, _, hw⟩ | ⟨_, _, _, hw⟩ | ⟨_, _, c, _, hw⟩ <;> rw [hw]
-  · exact Or.inl rfl
-  · exact Or.inl (arm_fields s).2.2.2.2.2.2.1
-  · exact Or.inl (arm_fields s).2.2.2.2.2.2.1
-  · exact Or.inr ⟨_, fs.log, rfl⟩
-  · rw [(arm_fields _).2.2.2.2.2.2.1]; exact Or.inr ⟨_, fs.log, rfl⟩
-
-theorem settle_log : ∀ (n : Nat) (s : RN),
-    (settle n s).now = s.now ∧ ∃ pre, (settle n s).log = pre ++ s.log ∧ ∀ q ∈ pre, q.stamp = s.now := by
+theorem settle_frame : ∀ (n : Nat) (s : RN),
+    (settle n s).now = s.now ∧ (settle n s).log = s.log ∧ (settle n s).svid = s.svid ∧
+    (settle n s).dirOn = s.dirOn ∧ (settle n s).pub = s.pub ∧ (settle n s).script = s.script ∧
+    (settle n s).anchors = s.anchors := by
   intro n
   induction n with
-  | zero => intro s; exact ⟨rfl, [], rfl, by simp⟩
+  | zero => intro s; exact ⟨rfl, rfl, rfl, rfl, rfl, rfl, rfl⟩
   | succ n ih =>
     intro s
     simp only [settle]
-    cases hd : s.due
-    · exact ⟨rfl, [], rfl, by simp⟩
-    · simp only [if_true]
-      obtain ⟨hn, pre, hl, hp⟩ := ih (wake s)
-      rw [wake_now] at hn hp
-      refine ⟨hn, ?_⟩
-      rcases wake_log s with h | ⟨r, h, hr⟩
-      · exact ⟨pre, by rw [hl, h], hp⟩
-      · refine ⟨pre ++ [r], by rw [hl, h]; simp, ?_⟩
-        intro q hq
-        simp only [List.mem_append, List.mem_singleton] at hq
-        rcases hq with hq | hq
-        · exact hp q hq
-        · rw [hq]; exact hr
+    split
+    · obtain ⟨a1, a2, a3, a4, a5, a6, a7⟩ := ih (wake s)
+      obtain ⟨b1, b2, b3, b4, b5, b6, b7⟩ := wake_frame s
+      exact ⟨a1.trans b1, a2.trans b2, a3.trans b3, a4.trans b4, a5.trans b5, a6.trans b6, a7.trans b7⟩
+    · exact ⟨rfl, rfl, rfl, rfl, rfl, rfl, rfl⟩
 
 theorem lastGood_append_bad (pre log : List Req) (h : ∀ q ∈ pre, q.good = false) :
     lastGood (pre ++ log) = lastGood log := by
@@ -296,78 +310,56 @@ inductive RReach (dirOn : Bool) (a0 : Nat) (script : List Reply) (t0 : Int) : RN
   | start : RReach dirOn a0 script t0 (start dirOn a0 script t0)
   | adv {s : RN} (d : Int) : 0 < d → RReach dirOn a0 script t0 s → RReach dirOn a0 script t0 (advance s d)
   | anch {s : RN} (a : Nat) : RReach dirOn a0 script t0 s → RReach dirOn a0 script t0 (setAnchors s a)
+  | ans {s : RN} : RReach dirOn a0 script t0 s → RReach dirOn a0 script t0 (answer s)
 
 theorem linv_advance_pre {s : RN} (h : LInv s) {d : Int} (hd : 0 ≤ d) : LInv { s with now := s.now + d } := by
-  refine ⟨?_, ?_, ?_⟩
+  refine ⟨?_, ?_, ?_, ?_⟩
   · intro hm
     obtain ⟨h1, h2, h3⟩ := h.waiting hm
     exact ⟨h1, h2, by show s.armedAt ≤ s.now + d; omega⟩
   · intro hm
     obtain ⟨h1, h2, h3, h4⟩ := h.retrying hm
     exact ⟨h1, by show s.armedAt ≤ s.now + d; omega, h3, h4⟩
-  · exact dinv_congr (s := s) rfl rfl rfl rfl rfl h.data
+  · intro hm
+    obtain ⟨h1, h2, h3, h4⟩ := h.flight hm
+    exact ⟨h1, by show s.reqAt ≤ s.now + d; omega, h3, h4⟩
+  · exact dinv_congr (s := s) rfl rfl rfl rfl h.data
 
-theorem wake_dirOn (s : RN) : (wake s).dirOn = s.dirOn := by
-  have fs := fetch_spec s
-  rcases wake_cases s with ⟨_, hw⟩ | ⟨_, hw⟩ | ⟨_, _, hw⟩ | ⟨_, _, _, hw⟩ | ⟨_, _, c, _, hw⟩ <;> rw [hw]
-  · exact (arm_fields s).2.2.2.2.2.2.2.2.2.1
-  · exact (arm_fields s).2.2.2.2.2.2.2.2.2.1
-  · exact fs.dirOn
-  · rw [(arm_fields _).2.2.2.2.2.2.2.2.2.1]; exact fs.dirOn
-
-theorem settle_dirOn : ∀ (n : Nat) (s : RN), (settle n s).dirOn = s.dirOn := by
-  intro n
-  induction n with
-  | zero => intro s; rfl
-  | succ n ih =>
-    intro s
-    simp only [settle]
-    split
-    · rw [ih, wake_dirOn]
-    · rfl
-
+/-- The state before the initial request. -/
 def start0 (dirOn : Bool) (a0 : Nat) (script : List Reply) (t0 : Int) : RN :=
   { now := t0, script := script, dirOn := dirOn, anchors := a0 }
 
-theorem start_cases (dirOn : Bool) (a0 : Nat) (script : List Reply) (t0 : Int) :
-    ((fetch (start0 dirOn a0 script t0)).2 = none ∧
-      start dirOn a0 script t0 = (fetch (start0 dirOn a0 script t0)).1) ∨
-    (∃ c, (fetch (start0 dirOn a0 script t0)).2 = some c ∧
-      start dirOn a0 script t0 =
-        settled (arm { (fetch (start0 dirOn a0 script t0)).1 with svid := some c, renewAt := renewalTime c.nb c.na })) := by
-  simp only [start, start0]
-  rcases fetch ({ now := t0, script := script, dirOn := dirOn, anchors := a0 } : RN) with ⟨s1, r⟩
-  cases r <;> simp
+theorem linv_start (dirOn : Bool) (a0 : Nat) (script : List Reply) (t0 : Int) :
+    LInv (start dirOn a0 script t0) := by
+  refine ⟨(by intro h; simp [start, issue] at h), (by intro h; simp [start, issue] at h), ?_, ?_⟩
+  · intro _; exact ⟨rfl, Int.le_refl _, fun _ => ⟨rfl, rfl⟩, (by intro h; simp [start, issue] at h)⟩
+  · refine ⟨rfl, rfl, ?_⟩
+    cases dirOn <;> rfl
 
 theorem rinv {dirOn : Bool} {a0 : Nat} {script : List Reply} {t0 : Int} {s : RN}
     (h : RReach dirOn a0 script t0 s) : LInv s ∧ s.due = false := by
   induction h with
-  | start =>
-    have d0 : DInv (start0 dirOn a0 script t0) := by
-      refine ⟨rfl, rfl, ?_⟩
-      cases dirOn <;> rfl
-    have fs := fetch_spec (start0 dirOn a0 script t0)
-    rcases start_cases dirOn a0 script t0 with ⟨hn, hs⟩ | ⟨c, hc, hs⟩
-    · have hd := dinv_fetch d0 0
-      rw [hn] at hd
-      rw [hs]
-      have hmode : (fetch (start0 dirOn a0 script t0)).1.mode = .dead := fs.mode
-      refine ⟨⟨?_, ?_, hd⟩, ?_⟩
-      · intro h; rw [hmode] at h; cases h
-      · intro h; rw [hmode] at h; cases h
-      · simp [RN.due, hmode]
-    · have hd := dinv_fetch d0 (renewalTime c.nb c.na)
-      rw [hc] at hd
-      rw [hs]
-      have := settled_spec (linv_arm hd)
-      exact ⟨this.2, this.1⟩
+  | start => exact ⟨linv_start dirOn a0 script t0, rfl⟩
   | adv d hd _ ih =>
     have := settled_spec (linv_advance_pre ih.1 (Int.le_of_lt hd))
     exact ⟨this.2, this.1⟩
   | @anch s a _ ih =>
     obtain ⟨hl, hdue⟩ := ih
-    refine ⟨⟨hl.waiting, hl.retrying, dinv_congr (s := s) rfl rfl rfl rfl rfl hl.data⟩, ?_⟩
-    exact hdue
+    exact ⟨⟨hl.waiting, hl.retrying, hl.flight, dinv_congr (s := s) rfl rfl rfl rfl hl.data⟩, hdue⟩
+  | @ans s _ ih =>
+    simp only [answer]
+    split
+    · rename_i hm
+      have := settled_spec (linv_answerCore ih.1 hm)
+      exact ⟨this.2, this.1⟩
+    · exact ih
+
+theorem not_due_lt {s : RN} (h : s.due = false) (hm : s.mode = .waiting ∨ s.mode = .retrying) :
+    s.now < s.wakeAt := by
+  cases hlt : decide (s.now < s.wakeAt)
+  · have : s.due = true := (due_iff s).mpr ⟨hm, by simpa using hlt⟩
+    rw [this] at h; cases h
+  · simpa using hlt
 
 theorem runActs_reach {dirOn : Bool} {a0 : Nat} {script : List Reply} {t0 : Int} :
     ∀ (acts : List Act) (s : RN), RReach dirOn a0 script t0 s → acts.all Act.ok = true →
@@ -382,28 +374,38 @@ theorem runActs_reach {dirOn : Bool} {a0 : Nat} {script : List Reply} {t0 : Int}
       cases a with
       | adv d => exact .adv d (by simpa [Act.ok] using hok.1) hs
       | anchors a => exact .anch a hs
+      | answer => exact .ans hs
       | toWake =>
         simp only [act]
         split
-        · exact hs
         · rename_i hn
           exact .adv _ (by omega) hs
+        · exact hs
     simp only [runActs, List.mem_cons] at ht
     rcases ht with ht | ht
     · rw [ht]; exact hstep
     · exact ih _ hstep hok.2 t ht
 
+theorem answerCore_dirOn (s : RN) : (answerCore s).dirOn = s.dirOn := by
+  have cs := complete_spec s
+  rcases answerCore_cases s with ⟨_, _, hw⟩ | ⟨_, _, hw⟩ | ⟨c, _, hw⟩ <;> rw [hw]
+  · exact cs.dirOn
+  · exact cs.dirOn
+  · rw [(arm_fields _).2.2.2.2.2.2.2.2.2.1]; exact cs.dirOn
+
 theorem rreach_dirOn {dirOn : Bool} {a0 : Nat} {script : List Reply} {t0 : Int} {s : RN}
     (h : RReach dirOn a0 script t0 s) : s.dirOn = dirOn := by
   induction h with
-  | start =>
-    have fs := fetch_spec (start0 dirOn a0 script t0)
-    rcases start_cases dirOn a0 script t0 with ⟨_, hs⟩ | ⟨c, _, hs⟩
-    · rw [hs]; exact fs.dirOn
-    · rw [hs]; simp only [settled]; rw [settle_dirOn, (arm_fields _).2.2.2.2.2.2.2.2.2.1]; exact fs.dirOn
+  | start => rfl
   | @adv s d _ _ ih =>
     show (settle _ { s with now := s.now + d }).dirOn = dirOn
-    rw [settle_dirOn]; exact ih
+    rw [(settle_frame _ _).2.2.2.1]; exact ih
   | anch a _ ih => exact ih
+  | @ans s _ ih =>
+    simp only [answer]
+    split
+    · show (settle _ (answerCore s)).dirOn = dirOn
+      rw [(settle_frame _ _).2.2.2.1, answerCore_dirOn]; exact ih
+    · exact ih
 
 end Kit.Spiffe
